@@ -39,7 +39,7 @@ Proof.
 Qed.
 Lemma take_len n bs a r : take n bs = Some (a, r) -> (length r <= length bs)%nat.
 Proof.
-  unfold take. destruct (n <=? length bs)%nat; [|discriminate]. intros H. injection H as _ <-.
+  rewrite take_unfold. destruct (n <=? length bs)%nat; [|discriminate]. intros H. injection H as _ <-.
   rewrite skipn_length. lia.
 Qed.
 
@@ -66,7 +66,7 @@ Lemma rd_uint8_strict bs : match rd_uint8 bs with
                            | Err e => e <> EFuel
                            end.
 Proof.
-  unfold rd_uint8, uint_decode, take. destruct bs as [|b bs]; cbn [length Nat.leb of_opt]; [discriminate|].
+  unfold rd_uint8, uint_decode. rewrite take_unfold. destruct bs as [|b bs]; cbn [length Nat.leb of_opt]; [discriminate|].
   cbn [skipn length]. lia.
 Qed.
 
